@@ -76,9 +76,6 @@ func newFile(L *LState, file *os.File, path string, flag int, perm os.FileMode, 
 	}
 	lfile := &lFile{fp: file, pp: nil, writer: nil, reader: nil, stdout: nil, closed: false}
 	ud.Value = lfile
-	if path != "" {
-		L.G.openFiles = append(L.G.openFiles, lfile)
-	}
 	if writable {
 		lfile.writer = file
 	}
@@ -278,6 +275,20 @@ func closeOpenFiles(L *LState) {
 		file.fp.Close()
 	}
 	L.G.openFiles = nil
+}
+
+// rememberOpenFile: only a handle that got a buffered writer needs LState.Close (its bytes would
+// be lost); all others are left to the garbage collector, which closes their descriptors.
+func rememberOpenFile(L *LState, file *lFile) {
+	if file.std {
+		return
+	}
+	for _, f := range L.G.openFiles {
+		if f == file {
+			return
+		}
+	}
+	L.G.openFiles = append(L.G.openFiles, file)
 }
 
 func forgetOpenFile(L *LState, file *lFile) {
@@ -636,6 +647,7 @@ func fileSetVBuf(L *LState) int {
 		switch file.Type() {
 		case lFileFile:
 			file.writer = bufio.NewWriterSize(file.fp, bufsize)
+			rememberOpenFile(L, file)
 		case lFileProcess:
 			writer, err = file.pp.StdinPipe()
 			if err != nil {
